@@ -258,7 +258,16 @@ func (s *Solver) popLevels(n int, sb *strings.Builder) {
 // the variables and UF applications of the query is returned on sat.
 func (s *Solver) Check(pc []*Term, extra *Term, wantModel bool) (Res, *Model) {
 	t0 := time.Now()
-	defer func() { atomic.AddInt64(&gStats.TimeNs, int64(time.Since(t0))) }()
+	defer func() {
+		d := time.Since(t0)
+		atomic.AddInt64(&gStats.TimeNs, int64(d))
+		if d > 2*time.Second && os.Getenv("GOSYM_SLOW") != "" {
+			fmt.Fprintf(os.Stderr, "slow query %.1fs on %s (pc=%d)\n", d.Seconds(), s.kind, len(pc))
+			if extra != nil {
+				os.WriteFile(fmt.Sprintf("/tmp/slow_%s_%d.smt2", s.kind, time.Now().UnixNano()), []byte(oneShotText(s.tt, pc, extra)), 0644)
+			}
+		}
+	}()
 	atomic.AddInt64(&gStats.Queries, 1)
 	noteBackend(s.kind)
 	if s.dead {
@@ -530,17 +539,14 @@ func isHeavy(t *Term) bool {
 		switch t.Op {
 		case OpMul, OpUDiv, OpURem, OpSDiv, OpSRem:
 			if t.W >= 32 {
-				for _, a := range t.Args {
-					if !a.IsConst() {
-						// non-constant operand with a wide op: heavy unless other side is a power of two
-						other := t.Args[0]
-						if other == a {
-							other = t.Args[1]
-						}
-						if !other.IsConst() || other.Val&(other.Val-1) != 0 {
-							return true
-						}
-					}
+				a, b := t.Args[0], t.Args[1]
+				switch {
+				case !a.IsConst() && !b.IsConst():
+					return true
+				case b.IsConst() && b.Val >= 1<<16 && b.Val&(b.Val-1) != 0:
+					return true
+				case a.IsConst() && a.Val >= 1<<16 && a.Val&(a.Val-1) != 0:
+					return true
 				}
 			}
 		}
